@@ -14,6 +14,9 @@ DIM_POOLS = [
     ["lon", "lat", "alt", "tau"],
     ["p_1", "q_2", "ax3", "Dim4"],
     ["z", "y", "x", "t"],
+    ["kx", "ky", "kz", "kt"],  # names that look like reciprocal-space names
+    ["h", "k", "l", "kappa"],
+    ["k_x", "k_y", "kk", "k_"],
 ]
 UNIT_POOL = ["m", "nm", "s", "T", "rad", "um", "km", "A"]
 VDIM_POOLS = [
